@@ -99,7 +99,8 @@ Section Confine.
     - unfold hf_dir. change (c_gitignore c') with (c_gitignore c). rewrite !should_skip_dir_same. rewrite SS.
       destruct (should_skip_dir c (s_stack (visit (inc_inodes st) p)) p); destruct (c_gitignore c);
         try (split; [reflexivity|exact H2]); try (split; [reflexivity|apply sk_set_stack; exact H2]).
-      destruct (parse_dir_gi p ch) as [|m]; (split; [reflexivity|]); [exact H2|apply sk_set_stack; exact H2].
+      change (c_fatal c') with (c_fatal c).
+      destruct (parse_dir_gi p ch) as [|m]; [destruct (c_fatal c)|]; (split; [reflexivity|]); [exact H2|apply sk_set_stack; exact H2|apply sk_set_stack; exact H2].
   Qed.
 
   Lemma post_sim nd r r' : sim_res r r' -> sim_res (post c nd r) (post c' nd r').
